@@ -171,6 +171,13 @@ func sigNum(oid asn1.ObjectIdentifier) int {
 	return 0
 }
 
+func oidStr(o asn1.ObjectIdentifier) string {
+	if len(o) == 0 {
+		return "-"
+	}
+	return o.String()
+}
+
 func b01(b bool) string {
 	if b {
 		return "1"
@@ -183,8 +190,8 @@ func b01(b bool) string {
 // respFacts: what the standard library says about der (and about its signatures w.r.t. issuer).
 func respFacts(der []byte, issuer *x509.Certificate) string {
 	outerOk, outerRest, status, typeBasic, basicOk, basicRest := false, false, 0, false, false, false
-	pa, ridTag, ridOk, ncerts, certOk, sigEmb, embIss, sigIss, alg := int64(0), 0, false, 0, false, false, false, false, 0
-	singles := "-"
+	pa, ridTag, ridOk, sigIss := int64(0), 0, false, false
+	singles, certs, sigOidS := "-", "-", "-"
 	func() {
 		var outer responseASN1
 		rest, err := asn1.Unmarshal(der, &outer)
@@ -207,8 +214,8 @@ func respFacts(der []byte, issuer *x509.Certificate) string {
 			for _, e := range s.SingleExtensions {
 				crit = crit || e.Critical
 			}
-			ss = append(ss, fmt.Sprintf("%s:%s:%s:%s:%d:%d:%d:%d:%d:%d", s.CertID.SerialNumber.String(), b01(bool(s.Good)), b01(bool(s.Unknown)),
-				b01(crit), hashNum(s.CertID.HashAlgorithm.Algorithm), s.ThisUpdate.Unix(), s.NextUpdate.Unix(),
+			ss = append(ss, fmt.Sprintf("%s:%s:%s:%s:%s:%d:%d:%d:%d:%d", s.CertID.SerialNumber.String(), b01(bool(s.Good)), b01(bool(s.Unknown)),
+				b01(crit), oidStr(s.CertID.HashAlgorithm.Algorithm), s.ThisUpdate.Unix(), s.NextUpdate.Unix(),
 				s.Revoked.RevocationTime.Unix(), int(s.Revoked.Reason), len(s.SingleExtensions)))
 		}
 		if len(ss) > 0 {
@@ -225,30 +232,35 @@ func respFacts(der []byte, issuer *x509.Certificate) string {
 			r, e := asn1.Unmarshal(tbs.RawResponderID.Bytes, &kh)
 			ridOk = e == nil && len(r) == 0
 		}
-		alg = sigNum(basic.SignatureAlgorithm.Algorithm)
+		alg := sigNum(basic.SignatureAlgorithm.Algorithm) // the harness's own table; the model has its own
+		sigOidS = oidStr(basic.SignatureAlgorithm.Algorithm)
 		sig := basic.Signature.RightAlign()
-		ncerts = len(basic.Certificates)
-		if ncerts > 0 {
-			c, e := x509.ParseCertificate(basic.Certificates[0].FullBytes)
-			certOk = e == nil
-			if certOk {
-				sigEmb = c.CheckSignature(x509.SignatureAlgorithm(alg), tbs.Raw, sig) == nil
+		var cs []string
+		for _, rc := range basic.Certificates { // facts about EVERY embedded certificate
+			ok, signed, byIss := false, false, false
+			if c, e := x509.ParseCertificate(rc.FullBytes); e == nil {
+				ok = true
+				signed = c.CheckSignature(x509.SignatureAlgorithm(alg), tbs.Raw, sig) == nil
 				if issuer != nil {
-					embIss = issuer.CheckSignature(c.SignatureAlgorithm, c.RawTBSCertificate, c.Signature) == nil
+					byIss = issuer.CheckSignature(c.SignatureAlgorithm, c.RawTBSCertificate, c.Signature) == nil
 				}
 			}
+			cs = append(cs, b01(ok)+":"+b01(signed)+":"+b01(byIss))
+		}
+		if len(cs) > 0 {
+			certs = strings.Join(cs, ";")
 		}
 		if issuer != nil {
 			sigIss = issuer.CheckSignature(x509.SignatureAlgorithm(alg), tbs.Raw, sig) == nil
 		}
 	}()
-	return fmt.Sprintf("f.outerOk=%s f.outerRest=%s f.status=%d f.typeBasic=%s f.basicOk=%s f.basicRest=%s f.pa=%d f.singles=%s f.ridTag=%d f.ridOk=%s f.ncerts=%d f.certOk=%s f.sigEmb=%s f.embIss=%s f.sigIss=%s f.alg=%d",
-		b01(outerOk), b01(outerRest), status, b01(typeBasic), b01(basicOk), b01(basicRest), pa, singles, ridTag, b01(ridOk), ncerts,
-		b01(certOk), b01(sigEmb), b01(embIss), b01(sigIss), alg)
+	return fmt.Sprintf("f.outerOk=%s f.outerRest=%s f.status=%d f.typeBasic=%s f.basicOk=%s f.basicRest=%s f.pa=%d f.singles=%s f.ridTag=%d f.ridOk=%s f.certs=%s f.sigIss=%s f.sigOid=%s",
+		b01(outerOk), b01(outerRest), status, b01(typeBasic), b01(basicOk), b01(basicRest), pa, singles, ridTag, b01(ridOk), certs,
+		b01(sigIss), sigOidS)
 }
 
 func reqFacts(der []byte) string {
-	ok, rest, hasSig, n, h, serial := false, false, false, 0, 0, "0"
+	ok, rest, hasSig, n, h, serial := false, false, false, 0, "-", "0"
 	var nh, kh []byte
 	func() {
 		var req ocspRequest
@@ -259,10 +271,10 @@ func reqFacts(der []byte) string {
 		ok, rest, hasSig, n = true, len(r) > 0, len(req.OptionalSignature.FullBytes) > 0, len(req.TBSRequest.RequestList)
 		if n > 0 {
 			c := req.TBSRequest.RequestList[0].Cert
-			h, nh, kh, serial = hashNum(c.HashAlgorithm.Algorithm), c.NameHash, c.IssuerKeyHash, c.SerialNumber.String()
+			h, nh, kh, serial = oidStr(c.HashAlgorithm.Algorithm), c.NameHash, c.IssuerKeyHash, c.SerialNumber.String()
 		}
 	}()
-	return fmt.Sprintf("f.ok=%s f.rest=%s f.hasSig=%s f.n=%d f.hash=%d f.nh=%s f.kh=%s f.serial=%s", b01(ok), b01(rest), b01(hasSig), n, h, hx.Hex(nh), hx.Hex(kh), serial)
+	return fmt.Sprintf("f.ok=%s f.rest=%s f.hasSig=%s f.n=%d f.hashOid=%s f.nh=%s f.kh=%s f.serial=%s", b01(ok), b01(rest), b01(hasSig), n, h, hx.Hex(nh), hx.Hex(kh), serial)
 }
 
 // ---------------------------------------------------------------- observables of the real code
@@ -304,6 +316,13 @@ func issuerArg(o hx.Op, k string) *x509.Certificate {
 }
 
 func execResp(o hx.Op) string {
+	if o.Str("csf") == "1" { // two-step use: parse without issuer, then Response.CheckSignatureFrom(issuer)
+		r, err := ocsp.ParseResponseForCert(o.Hex("der"), certArg(o, "cert"), nil)
+		if err != nil {
+			return classify(err)
+		}
+		return showResp(r, true) + " csf=" + b01(r.CheckSignatureFrom(issuerArg(o, "iss")) == nil)
+	}
 	r, err := ocsp.ParseResponseForCert(o.Hex("der"), certArg(o, "cert"), issuerArg(o, "iss"))
 	if err != nil {
 		return classify(err)
@@ -551,7 +570,8 @@ func buildResponse(g *hx.Gen, r *hx.Rand) (der []byte, serials []*big.Int, issue
 		resp.SignatureAlgorithm.Parameters = asn1.RawValue{Tag: 5}
 	}
 	// splice the exact signed bytes back in (Marshal re-encodes the struct)
-	switch r.Intn(6) {
+	chainIssuer := 0
+	switch r.Intn(8) {
 	case 0:
 		resp.Certificates = []asn1.RawValue{{FullBytes: e.cert.Raw}}
 		g.Stat("resp.embedded-signer")
@@ -566,6 +586,16 @@ func buildResponse(g *hx.Gen, r *hx.Rand) (der []byte, serials []*big.Int, issue
 			resp.Certificates = []asn1.RawValue{{FullBytes: must(asn1.Marshal([]int{1, 2}))}}
 			g.Stat("resp.embedded-garbage")
 		}
+	case 4: // chain [signer, other]: the check against the issuer must use the FIRST certificate
+		o := r.Range(4, 7)
+		resp.Certificates = []asn1.RawValue{{FullBytes: e.cert.Raw}, {FullBytes: ents[o].cert.Raw}}
+		chainIssuer = ents[o].by
+		g.Stat("resp.chain-signer-first")
+	case 5: // chain [other, signer]: the first certificate did not sign the response
+		o := r.Range(4, 7)
+		resp.Certificates = []asn1.RawValue{{FullBytes: ents[o].cert.Raw}, {FullBytes: e.cert.Raw}}
+		chainIssuer = hx.Pick(r, []int{ents[o].by, e.by})
+		g.Stat("resp.chain-signer-last")
 	}
 	basicDER := must(asn1.Marshal(resp))
 	typ := oidBasic
@@ -589,6 +619,9 @@ func buildResponse(g *hx.Gen, r *hx.Rand) (der []byte, serials []*big.Int, issue
 	}
 	// who checks: the signer's own CA most of the time
 	issuerPick = hx.Pick(r, []int{e.by, e.by, e.by, signer, r.Range(1, 3), 0})
+	if chainIssuer != 0 && r.Chance(3, 4) {
+		issuerPick = chainIssuer
+	}
 	return
 }
 
@@ -608,7 +641,12 @@ func emitResp(g *hx.Gen, r *hx.Rand, der []byte, serials []*big.Int, iss int) {
 	if iss > 0 {
 		issS, issuer = strconv.Itoa(iss), ents[iss].cert
 	}
-	g.Emit("resp cert=%s issuer=%s iss=%s %s der=%s", cert, b01(issuer != nil), issS, respFacts(der, issuer), hx.Hex(der))
+	csf := ""
+	if issuer != nil && r.Chance(1, 6) {
+		csf = " csf=1"
+		g.Stat("resp.two-step-CheckSignatureFrom")
+	}
+	g.Emit("resp cert=%s issuer=%s iss=%s%s %s der=%s", cert, b01(issuer != nil), issS, csf, respFacts(der, issuer), hx.Hex(der))
 }
 
 func mutateDER(r *hx.Rand, der []byte) []byte {
